@@ -28,19 +28,19 @@ PLANS = {
                    # what the command-line tool prints line by line (surfaces reproduce every input line)
                    dict(main_stage(60, 240, tier, name="cli", shards=8), needs=["py", "cli"], extra=["--prop-alias", "C19", "--scale", "2"],
                         kinds_re="^cli_")],
-        "require": ["morphemes_checked", "class_rewritten", "class_multi_morpheme", "class_split_token", "long_inputs_accepted", "nonempty_inputs_normalised_to_empty", "cli.cli_runs_compared"],
+        "require": ["deprecated_splits_checked", "single_unit_splits_seen", "morphemes_checked", "class_rewritten", "class_multi_morpheme", "class_split_token", "long_inputs_accepted", "nonempty_inputs_normalised_to_empty", "cli.cli_runs_compared"],
         "rule": "seeded worlds (random matrix + lexicon with A/B compounds + 0-3 user dictionaries + random plugin stack "
                 "incl. NFKC/lower-casing, prolonged-sound-mark collapsing, yomigana deletion, MeCab/regex/simple OOV, "
                 "numeric/katakana joining) x texts built from dictionary keys, near misses, numerals, katakana runs, "
                 "yomigana and hostile noise x modes A/B/C; every result and every on-demand split is checked against the "
                 "literal partition/surface clauses. distinct_nontrivial = distinct (world,mode,text) whose normalised text "
-                "differs from the input, or that has >1 morpheme, an empty-range morpheme or a split token. Every second world also offers inputs of ~49,000 / ~49,400 / 65,500-69,500 bytes (whatever is accepted must partition), every third world has unusual prolonged-sound-mark / yomigana settings (empty or longer replacement, other marks and brackets) with texts made of marks only: an input whose normalised form is empty must yield no morphemes.",
+                "differs from the input, or that has >1 morpheme, an empty-range morpheme or a split token. Every second world also offers inputs of ~49,000 / ~49,400 / 65,500-69,500 bytes (whatever is accepted must partition), every third world has unusual prolonged-sound-mark / yomigana settings (empty or longer replacement, other marks and brackets) with texts made of marks only: an input whose normalised form is empty must yield no morphemes. Every other world has compounds that declare a single B unit; Morpheme::split (the older entry point that adds the morpheme itself when nothing was split) must return a partition of the parent's range for every morpheme and mode.",
         "assumptions": COMMON_ASSUMPTIONS,
     },
     "C02": lambda tier: {
         "level": "exploration",
         "stages": [main_stage(40, 240, tier)],
-        "require": ["lattice_nodes_checked", "lattices_with_alternative_paths", "results_compared_with_chain", "rewritten_results_cost_checked",
+        "require": ["positions_oov_set_compared_with_providers", "positions_served_by_the_last_provider_only", "lattice_nodes_checked", "lattices_with_alternative_paths", "results_compared_with_chain", "rewritten_results_cost_checked",
                     "dictionary_candidates_expected_and_found", "worlds_nonsquare_matrix"],
         "rule": "seeded worlds (square and non-square matrices with negative / extreme costs, inhibited pairs, homographs, "
                 "overlapping keys, user dictionaries, random OOV stacks; path-rewrite plugins in 1 of 5 worlds) x texts of "
@@ -48,7 +48,7 @@ PLANS = {
                 "observed nodes (costs from the generated matrix text, never ConnectionMatrix::cost) is compared with every "
                 "node's total cost, the EOS cost, the back-pointer chain, Morpheme::total_cost and get_internal_cost; every "
                 "source-CSV row matching at a reachable boundary must be present with its declared parameters. "
-                "distinct_nontrivial = distinct (world,text) whose lattice has complete paths of different cost. With path-rewrite plugins every reported morpheme must carry the cumulative cost recomputed along the path up to the chain node that ends where it ends.",
+                "distinct_nontrivial = distinct (world,text) whose lattice has complete paths of different cost. With path-rewrite plugins every reported morpheme must carry the cumulative cost recomputed along the path up to the chain node that ends where it ends. At every reachable position the out-of-vocabulary nodes of the lattice are compared with what the configured providers return when asked directly through the public plugin trait in the documented order (all of them unless the character is NOOOVBOW/NOOOVBOW2, each told the character lengths of the words that exist so far; the last one again when nothing exists).",
         "assumptions": COMMON_ASSUMPTIONS + ["permissible word ends are taken from InputBuffer::can_bow (checked against its own model in C13)"],
     },
     "C17": lambda tier: {
@@ -202,7 +202,7 @@ PLANS = {
     "C14": lambda tier: {
         "level": "exploration",
         "stages": [main_stage(40, 300, tier)],
-        "require": ["merged_tokens_checked", "unmerged_tokens_compared", "single_numeral_tokens_renormalised"],
+        "require": ["single_numeral_values_checked", "merged_tokens_checked", "unmerged_tokens_compared", "single_numeral_tokens_renormalised"],
         "rule": "seeded worlds loaded twice from the same bytes, with and without pathRewritePlugin (numeric joining with/without "
                 "enableNormalize, katakana-OOV joining with minLength 1-4, both orders; random input-text and OOV stacks, user dictionaries; "
                 "numeral-POS and non-numeral-POS words over digits / kanji numerals / units, multi-character words over numeral characters, "
@@ -210,13 +210,13 @@ PLANS = {
                 "matched on normalised-text positions: every with-plugin token must be one base token unchanged (all observable fields) or "
                 "the union of consecutive base tokens with concatenated dictionary-side surface and the prescribed POS; a single numeral "
                 "token may only have its normalised form / word id rewritten. distinct_nontrivial = distinct (world,mode,text) containing "
-                "a real merge that passed",
+                "a real merge that passed. A lone numeral token whose normalised form is rewritten must receive the value of its own normalised form (independent evaluator of C15).",
         "assumptions": COMMON_ASSUMPTIONS + ["single-token numeral normalisation counts as a degenerate merge (the repository's own tests require 一 -> 1)"],
     },
     "C13": lambda tier: {
         "level": "exploration",
         "stages": [main_stage(40, 300, tier)],
-        "require": ["positions_checked", "oov_candidates_expected", "run_lengths_checked", "texts_with_runs_longer_than_one", "oov_morphemes_checked"],
+        "require": ["definition_sets_with_a_class_table_of_the_provider", "positions_checked", "oov_candidates_expected", "run_lengths_checked", "texts_with_runs_longer_than_one", "oov_morphemes_checked"],
         "rule": "seeded definition sets: char.def giving each of 21 alphabet characters (letters, digits, kana, kanji, 々, emoji + skin-tone "
                 "modifier, combining mark, Greek, Cyrillic, space) 1-3 classes, ALL for modifiers / combining marks, NOOOVBOW / NOOOVBOW2, "
                 "overlapping ranges; category table with random invoke/group/length per class; unk.def with 0-3 lines per class; provider "
@@ -226,7 +226,7 @@ PLANS = {
                 "(left-to-right segmentation, two readings of 'class in common'); at EVERY reachable lattice position (hook H4) the set of "
                 "OOV nodes (begin,end,left,right,cost,POS) vs the model of the provider chain incl. the created-words bitmap and fallback "
                 "re-invocation; OOV morphemes report is_oov, dictionary -1, a candidate POS and the normalised slice as forms. "
-                "distinct_nontrivial = distinct (definitions,text) that passed all comparisons",
+                "distinct_nontrivial = distinct (definitions,text) that passed all comparisons In every other definition set the MeCab provider is configured with a class table of its own (charDef) while the tokenizer's char.def carries the same ranges with other invoke/group/length columns.",
         "assumptions": COMMON_ASSUMPTIONS + ["dictionary candidates at a position are taken from the observed lattice (checked by C02/C04)",
                                              "the regex crate is the trusted base for the regex provider's reference",
                                              "duplicated candidates are ignored (the property speaks of which candidates exist)"],
@@ -253,14 +253,14 @@ PLANS = {
                    # C19's driver runs here too; only its history kinds are judged under this property
                    dict(main_stage(60, 240, tier, name="pyhist", shards=8), needs=["py", "cli"], extra=["--prop-alias", "C19", "--scale", "2"],
                         kinds_re="^python_(history|mode_override)$")],
-        "require": ["history_operations", "probes_compared", "history_analyses_rejected", "histories_completed", "pyhist.py_history_probes", "pyhist.py_override_checks"],
+        "require": ["truncated_images_used", "analyses_failed_after_the_path_was_found", "probes_compared_after_late_failures", "history_operations", "probes_compared", "history_analyses_rejected", "histories_completed", "pyhist.py_history_probes", "pyhist.py_override_checks"],
         "rule": "seeded worlds (random plugin stacks incl. MeCab / regex OOV, path-rewrite plugins in 1 of 3) x histories of 5-40 operations on "
                 "ONE long-lived StatefulTokenizer + reused MorphemeList + reused split list: set_mode, set_subset (random of the 1,024 subsets; "
                 "restricted to supersets of surface/POS/normalised form when path-rewrite plugins are configured), analyse(text: empty, "
                 ">49,149 bytes, NFKC-expanding beyond 65,535 bytes, 5-85 repeats of one character, long and short key texts), split_into. "
                 "After EVERY operation a probe text is analysed by the long-lived pair and by a freshly created tokenizer + list with the same "
                 "mode and field request; boundaries, word ids and every requested field (through the accessors) must be equal, and a failed "
-                "analysis must leave the tokenizer usable. distinct_nontrivial = distinct histories that completed with all probes equal. Every second history also compares each probe with StatelessTokenizer::tokenize (a new analyser per call, into_morpheme_list).",
+                "analysis must leave the tokenizer usable. distinct_nontrivial = distinct histories that completed with all probes equal. Every second history also compares each probe with StatelessTokenizer::tokenize (a new analyser per call, into_morpheme_list). Every other world is also loaded from a system image that lost its last bytes: texts whose best path holds the unreadable last word fail AFTER the lattice was built; histories mixing them with ordinary texts are probed against a fresh tokenizer on the same image after every operation.",
         "assumptions": COMMON_ASSUMPTIONS + ["the fresh tokenizer of the same tree is the executable model"],
     },
     "C09": lambda tier: {
@@ -286,7 +286,7 @@ PLANS = {
                    # dictionary numbers, POS and references as the Python binding reports them (fields incl. the raw word info, lookup)
                    dict(main_stage(60, 240, tier, name="pyrefs", shards=8), needs=["py", "cli"], extra=["--prop-alias", "C19", "--scale", "2"],
                         kinds_re="^python_(field|lookup|build)$")],
-        "require": ["rows_checked", "system_rows_compared_with_zero_layer_load", "morphemes_checked", "oov_morphemes_checked", "stacks_loaded_from_files", "morpheme_passes_with_a_field_subset", "stacks_with_version_2_user_dictionaries", "stacks_built_with_ConfigBuilder_user_dict", "pyrefs.py_word_infos_compared",
+        "require": ["stacks_with_version_1_user_dictionaries", "rows_checked", "system_rows_compared_with_zero_layer_load", "morphemes_checked", "oov_morphemes_checked", "stacks_loaded_from_files", "morpheme_passes_with_a_field_subset", "stacks_with_version_2_user_dictionaries", "stacks_built_with_ConfigBuilder_user_dict", "pyrefs.py_word_infos_compared",
                     "fifteenth_dictionary_rejected_with_error", "plugin_registered_pos_2"],
         "rule": "seeded stacks of 0, 1, 2, 3-13, 14 and 15 user dictionaries over a generated system dictionary; each layer compiled the way the "
                 "CLI does (against a plain load of the system dictionary), with POS that exist only in that layer, POS shared between layers "
@@ -295,7 +295,7 @@ PLANS = {
                 "(declared POS strings, references resolved to layer 0 or the own layer and the right row, found by lookup under its own "
                 "dictionary number); every system row compared with a zero-layer load; texts containing each word + plugin-OOV triggers: "
                 "dictionary_id / is_oov / part_of_speech of every morpheme; 15 layers must give an Err (no panic, no acceptance). "
-                "distinct_nontrivial = distinct stacks with >=2 layers (or the 15-layer rejection) that passed. Every second stack of 1-8 layers is also loaded from files through JapaneseDictionary::from_cfg (systemDict / userDict paths) with one user dictionary listed twice in a row: every listed file is a layer of its own (lookup under its number, POS, split references). The morpheme-level pass runs a second time on a tokenizer that requests only part of the fields (POS among them)",
+                "distinct_nontrivial = distinct stacks with >=2 layers (or the 15-layer rejection) that passed. Every second stack of 1-8 layers is also loaded from files through JapaneseDictionary::from_cfg (systemDict / userDict paths) with one user dictionary listed twice in a row: every listed file is a layer of its own (lookup under its number, POS, split references). The morpheme-level pass runs a second time on a tokenizer that requests only part of the fields (POS among them) In a quarter of the stacks every other user lexicon uses system parts of speech only and its image is re-encoded in the first user-dictionary layout (no POS block, other magic number): all row, reference, dictionary-number and morpheme checks apply unchanged.",
         "assumptions": COMMON_ASSUMPTIONS + ["user-dictionary dic_form is '*' (known defect D18 is not part of this property's generator)"],
     },
     "C20": lambda tier: {
@@ -349,7 +349,7 @@ PLANS = {
         ] + ([] if tier == "quick" else [
             dict(main_stage(60, 1200, tier, build="miri", name="miri", death_is_violation=False), shards=16),
         ]),
-        "require": ["repetitions", "concurrent_results_compared_with_baseline", "overlapping_operation_pairs_between_threads",
+        "require": ["repetitions_with_hundreds_of_compounds", "repetitions", "concurrent_results_compared_with_baseline", "overlapping_operation_pairs_between_threads",
                     "tsan.concurrent_results_compared_with_baseline", "tsan.overlapping_operation_pairs_between_threads",
                     "asan.concurrent_results_compared_with_baseline", "pythreads.py_thread_results"],
         "rule": "each repetition: a fresh world with EVERY plugin type (default input text, prolonged marks, yomigana, MeCab + regex + simple OOV, "
@@ -364,7 +364,7 @@ PLANS = {
                 "16 scheduler seeds (data-race detection, 2-3 threads). Python half: 8 threading.Thread workers over tokenizers created from "
                 "ONE Dictionary, 300 analyses each, results vs a sequential pass, interpreter exit status (no race detector applies to "
                 "CPython). Evidence of interleaving: operations are stamped from one global atomic clock; overlapping_operation_pairs counts "
-                "cross-thread overlaps. distinct_nontrivial = distinct thread-order signatures of the operation logs. Thread counts 2, 4, 8, 16, 40 and 72.. Every sixth repetition has 1,500 lemmas + 1,500 inflected words referring to them as dictionary form, and texts made of the inflected words",
+                "cross-thread overlaps. distinct_nontrivial = distinct thread-order signatures of the operation logs. Thread counts 2, 4, 8, 16, 40 and 72.. Every sixth repetition has 1,500 lemmas + 1,500 inflected words referring to them as dictionary form, and texts made of the inflected words Every third repetition has 400 compounds with declared units and texts made of them, analysed in modes A and B only, so that different compounds are split for the first time by different threads at the same moment and again later.",
         "assumptions": COMMON_ASSUMPTIONS + ["absence of a TSan / Miri report covers only the schedules and accesses executed",
                                              "Miri runs without the aliasing models (DESIGN.md 2.2)"],
     },
